@@ -35,6 +35,7 @@ class Case:
         self.err = ""
         self.run = None
         self.preload = []
+        self.prelude = None
         counts[slice_] = counts.get(slice_, 0) + 1
 
     def path(self, name): return self.dir + "/" + name
@@ -48,17 +49,19 @@ class Case:
 
     def emit(self):
         w = out.write
+        add_prelude(self)
         # appended after everything else (no line above moves): a call chain that leaves other functions in the first
         # five control-stack slots; the harness runs it between two identical failing calls (the second one is served
         # from the driver's function-lookup cache)
         tail = "mixed zo4() { return 0; } mixed zo3() { return zo4(); } mixed zo2() { return zo3(); } mixed zo1() { return zo2(); } mixed zother() { return zo1(); }\n"
         mp = self.path("main.c")
-        if mp in self.files and "zother" not in self.files[mp] and not self.files[mp].rstrip().endswith("\\"):
+        if mp in self.files and "zother" not in self.files[mp] and "ctx=file-end" not in self.label and not self.files[mp].rstrip().endswith("\\"):
             self.files[mp] = self.files[mp] + tail
         w("CASE %d %s\n" % (self.id, self.label))
         for p, c in self.files.items():
             b = c.encode("latin-1")
             w("FILE %s %d\n" % (p, len(b))); w(c); w("\n")
+        if self.prelude: w("PRELUDE %s\n" % self.prelude)
         for o in self.preload: w("PRELOAD %s\n" % o)
         w("LOAD %s\nCALL %s\nBIN %d\n" % (self.load, self.call, self.bin))
         if self.run: w("RUN %s %d %d\n" % self.run)
@@ -69,6 +72,28 @@ class Case:
 
 def lines_to_text(lines):
     return "\n".join(lines) + "\n"
+
+
+# what is compiled right before the case (the expectation does not depend on it)
+PRELUDES = ("none", "valid-with-initialisers", "initialisers-then-syntax-error", "syntax-error-in-include", "missing-inherit")
+current_prelude = "none"
+
+
+def add_prelude(c):
+    """files of the prelude program of case c; the harness loads it (ignoring the outcome) before the case"""
+    k = current_prelude
+    if k == "none": return
+    c.label += " prelude=" + k
+    d = c.dir + "/pre"
+    init = ["int pa = 1;", "", "mixed pb = ({ 1,", "  2 });", "int pc = pa + 5;", "", "", "mapping pd = ([ 1 : 2 ]);", "function pe = (: $1 + pa :);", "int pf() { return pa; }"]
+    if k == "valid-with-initialisers": src = init
+    elif k == "initialisers-then-syntax-error": src = init + ["int broken( { return 1; }", "int pg = 7;"]
+    elif k == "syntax-error-in-include":
+        c.files[d + "/bad.h"] = lines_to_text(["int ha = 3;", "int hb = ha +;", "int hc;"])
+        src = init[:4] + ['#include "bad.h"'] + init[4:]
+    else: src = ['inherit "/%s/does_not_exist";' % d] + init
+    c.files[d + "/prelude.c"] = lines_to_text(src)
+    c.prelude = "/" + d + "/prelude"
 
 
 # ---------------------------------------------------------------- slice 1: the statement at line L of the main file
@@ -310,10 +335,88 @@ def slice_depth(tier):
                 c.emit()
 
 
+# ---------------------------------------------------------------- slice 6: how the files end
+TERMS = {"newline": "\n", "no-newline": "", "comment-no-newline": "\n/* last line is a comment */", "blank-lines": "\n\n\n\n"}
+
+
+def slice_termination(tier):
+    for kind, (stmt, err) in FAILS.items():
+        for term, tail in TERMS.items():
+            for which in ("all-files", "failing-file", "main-file"):
+                def end(text_lines, is_failing, is_main):
+                    use = which == "all-files" or (which == "failing-file" and is_failing) or (which == "main-file" and is_main)
+                    return "\n".join(text_lines) + (tail if use else "\n")
+                lab = "term=%s which=%s fail=%s" % (term, which, kind)
+                # the failing statement on the last code line of the main file
+                c = Case("termination", "main-last-line " + lab, ctx="file-end")
+                c.files[c.path("main.c")] = end([GLOBALS, "", "mixed f0() { " + stmt + " return 0; }"], True, True)
+                c.frame(c.prog(), 3, "f0"); c.err = err; c.emit()
+                # … of an include at nesting 1..3 (a whole function on the last line of the innermost file); call site on the last line of main
+                for depth in (1, 2, 3):
+                    c = Case("termination", "include-depth-%d-last-line " % depth + lab, ctx="file-end")
+                    names = ["t_%d.h" % d for d in range(depth)]
+                    for d, nm in enumerate(names):
+                        if d < depth - 1:
+                            c.files[c.path(nm)] = end(["// level %d" % d, "int lv_%d;" % d, '#include "%s"' % names[d + 1]], False, False)
+                        else:
+                            c.files[c.path(nm)] = end(["// leaf", "int leaf_var;", "mixed inc_fail() { " + stmt + " return 0; }"], True, False)
+                    c.files[c.path("main.c")] = end([GLOBALS, '#include "%s"' % names[0], "int after_include;", "mixed f0() { return inc_fail(); }"], False, True)
+                    c.frame(c.prog(), 4, "f0"); c.frame(c.path(names[-1]), 3, "inc_fail"); c.err = err; c.emit()
+                # … of an inherited program
+                c = Case("termination", "inherited-last-line " + lab, ctx="file-end")
+                c.files[c.path("base.c")] = end([GLOBALS, "mixed bfail() { " + stmt + " return 0; }"], True, False)
+                c.files[c.path("main.c")] = end(['inherit "/%s/base";' % c.dir, "mixed f0() { return bfail(); }"], False, True)
+                c.frame(c.prog(), 2, "f0"); c.frame(c.prog("base"), 2, "bfail", prog=c.prog("base")); c.err = err; c.emit()
+                # a statement-level include whose last line is the failing statement
+                c = Case("termination", "body-include-last-line " + lab, ctx="file-end")
+                c.files[c.path("body.h")] = end(["zf = 1;", stmt], True, False)
+                c.files[c.path("main.c")] = end([GLOBALS, "mixed f0() {", '#include "body.h"', "return 0; }"], False, True)
+                c.frame(c.path("body.h"), 2, "f0"); c.err = err; c.emit()
+
+
+def slice_history(tier):
+    """contexts whose line information is kept in per-compile state, each after every prelude"""
+    global current_prelude
+    for k in PRELUDES[1:]:
+        current_prelude = k
+        slice_context(tier)
+        slice_termination_small(tier)
+        slice_include_small(tier)
+    current_prelude = "none"
+
+
+def slice_termination_small(tier):
+    stmt, err = FAILS["error"]
+    c = Case("history", "include-leaf-no-newline", ctx="file-end")
+    c.files[c.path("t.h")] = "// leaf\nint leaf_var = 4;\nmixed inc_fail() { " + stmt + " return 0; }"
+    c.files[c.path("main.c")] = lines_to_text([GLOBALS, '#include "t.h"', "mixed f0() { return inc_fail(); }"])
+    c.frame(c.prog(), 3, "f0"); c.frame(c.path("t.h"), 3, "inc_fail"); c.err = err; c.emit()
+
+
+def slice_include_small(tier):
+    for kind, (stmt, err) in FAILS.items():
+        for nl in (0, 1, 300):
+            for dp in (0, 2):
+                for place in ("after", "in-include-fn"):
+                    c = Case("history", "include %dx%d place=%s fail=%s" % (nl, dp, place, kind), ctx="include" if place != "after" else "after-include")
+                    o, inn, k = inc_chain(c, "i0", nl, dp)
+                    main = [GLOBALS, '#include "%s"' % o]
+                    if place == "after":
+                        main += ["int gi = 3;", "mixed f0() {", stmt, "return 0; }"]
+                        c.frame(c.prog(), len(main) - 1, "f0")
+                    else:
+                        c.files[c.path(inn)] += lines_to_text(["mixed inc_fail() {", stmt, "return 0; }"])
+                        main += ["mixed f0() {", "return inc_fail();", "}"]
+                        c.frame(c.prog(), len(main) - 1, "f0"); c.frame(c.path(inn), nl + 2, "inc_fail")
+                    c.files[c.path("main.c")] = lines_to_text(main)
+                    c.err = err; c.emit()
+
+
 def main():
     tier = sys.argv[1] if len(sys.argv) > 1 else "quick"
     only = sys.argv[2].split(",") if len(sys.argv) > 2 else None
-    for name, fn in (("line", slice_line), ("include", slice_include), ("codelen", slice_codelen), ("context", slice_context), ("depth", slice_depth)):
+    for name, fn in (("line", slice_line), ("include", slice_include), ("codelen", slice_codelen), ("context", slice_context), ("depth", slice_depth),
+                     ("termination", slice_termination), ("history", slice_history)):
         if only and name not in only: continue
         fn(tier)
     sys.stderr.write("c18 cases: %d %s\n" % (cid, counts))
